@@ -215,6 +215,13 @@ class CommandMixin(object):
                 pass
             return
         kind, arg = val[1], val[2]
+        if (kind == "release" and "nameplate" not in msg and cm.claim_refused) or \
+                (kind == "close" and "mailbox" not in msg and cm.open_refused and not cm.held):
+            # unspecified zone: the command refers to "what this connection claimed / opened",
+            # and that attempt was itself refused: whether it counts is not stated
+            self.probes["zone:refers-to-refused-attempt"] += 1
+            self._apply_observed(cm, sub, rest)
+            return
         getattr(self, "_cmd_" + kind)(cm, sub, rest, arg, now)
         if kind not in ("add",):
             self._messages_monotonic(sub.pre, sub.post, ev)
